@@ -136,7 +136,7 @@ def run_worlds(ctx, binary, tmpl, cases, tag, audit=True, audit_share=1.0):
                     audit_mismatch(ctx, "Alternates.GitResolve", {"graph": c.get("graph"), "layout": c.get("layout"), "style": c.get("style"),
                                                                   "git": c["_git"], "spec_required": c["required"]})
             gev.append({"paths": c["paths"], "files": c["files"], "root": c["root"], "alternates": alts, "readable": readable})
-        if tag != "a" and gev:
+        if tag != "a" and gev:       # (gev holds the audited sample)
             rej = ctx.tlc_trace("odb", "Alternates_GitAudit", gev)
             if rej:
                 i = views[rej[0]][0]
@@ -193,11 +193,15 @@ def run(ctx):
     git(["init", "-q", "--bare", tmpl], check=True)
     for bug in ("Bug_RelativeToRoot", "Bug_DupIsCycle", "Bug_ReverseOrder"):
         ctx.tlc_mc("odb", "Alternates_Gen", consts={bug: "TRUE", "MaxEdges": 2}, workers=2, expect_violation="InvDesign", coverage=False)
-    consts = {"N": 4, "FanOut": 2, "MaxEdges": 5, "Full": "TRUE"} if ctx.thorough else {"N": 4, "FanOut": 2, "MaxEdges": 4, "Full": "FALSE"}
+    consts = {"N": 4, "FanOut": 2, "MaxEdges": 5, "Full": "FALSE"} if ctx.thorough else {"N": 4, "FanOut": 2, "MaxEdges": 4, "Full": "FALSE"}
     cases = ctx.tlc_gen("odb", "Alternates_Gen", consts=consts, workers=6, timeout=3000)
     ctx.cov["exhaustive"] = True
     ctx.cov["instance"] = consts
-    bad = run_worlds(ctx, binary, tmpl, cases, "a", audit_share=0.15 if ctx.thorough else 0.05)
+    if ctx.thorough:    # every layout x style on the graphs of <= 4 links, six combinations on those of 5
+        seen = {json.dumps([c["graph"], c["layout"], c["style"]]) for c in cases}
+        more = ctx.tlc_gen("odb", "Alternates_Gen", consts={"N": 4, "FanOut": 2, "MaxEdges": 4, "Full": "TRUE"}, workers=6, timeout=3000)
+        cases += [c for c in more if json.dumps([c["graph"], c["layout"], c["style"]]) not in seen]
+    bad = run_worlds(ctx, binary, tmpl, cases, "a", audit_share=0.08 if ctx.thorough else 0.05)
     for c in cases:
         # non-trivial: more than one link is followed, or a cycle / duplicate has to be recognised
         if len(c["required"]) >= 2 or c["truecycle"] or sum(len(x) for x in c["graph"]) > len(c["required"]):
@@ -208,9 +212,9 @@ def run(ctx):
     ok = next((c for c in cases if len(c["required"]) == 3 and not c["truecycle"]), cases[0])
     ctx.sample({"graph": ok["graph"], "layout": ok["layout"], "style": ok["style"], "git_list": ok["required"], "gix": ok.get("_obs")})
 
-    nrand = 1500 if ctx.thorough else 150
+    nrand = 800 if ctx.thorough else 150
     rnd = [random_world(ctx.rng) for _ in range(nrand)]
-    bad2 = run_worlds(ctx, binary, tmpl, rnd, "b")
+    bad2 = run_worlds(ctx, binary, tmpl, rnd, "b", audit_share=0.5 if ctx.thorough else 1.0)
     for c in rnd:
         ctx.nontrivial(json.dumps([c["paths"], c["files"]]))
     ctx.cov["random_worlds"] = {"n": nrand, "rejected": len(bad2)}
